@@ -259,9 +259,13 @@ def run_lines(binary, lines, shards=None, timeout=3000, env=None):
 # ----------------------------------------------------------------------------- known findings
 
 def load_known():
-    p = os.path.join(VERIF, "known_findings.jsonl")
+    paths = [os.path.join(VERIF, "known_findings.jsonl")]
+    d = os.path.join(VERIF, "known_findings.d")
+    if os.path.isdir(d):
+        paths += sorted(os.path.join(d, f) for f in os.listdir(d) if f.endswith(".jsonl"))
     out = []
-    if os.path.exists(p):
+    for p in paths:
+        if not os.path.exists(p): continue
         for l in open(p):
             l = l.strip()
             if l and not l.startswith("#"): out.append(json.loads(l))
